@@ -124,6 +124,8 @@ static inline int
 vd_next(void)
 {
 	vd_idx++;
+	/* skipping is progress too (replays and resumed workers skip a lot) */
+	vd_sh->beat++;
 	if (vd_only >= 0) {
 		if (vd_idx != vd_only) {
 			return 0;
